@@ -14,8 +14,8 @@
      op 6  built-in distributions without a quantile method and without an exact model here
            (TDist, UDist, KDE), relational (oracle instantiation: F := the implementation's own CDF,
            reported by the harness at the points the statement needs):
-           7 6 kind own  bl bh cbl cbh cpl cph  ny { y st x xm c0 cm xp cp rst ref }*  nr { g m }*
-           own: bit 0 the distribution has its own InvCDF method, bit 1 its own Rand method;
+           7 6 kind par own  bl bh cbl cbh cpl cph  ny { y st x xm c0 cm xp cp rst ref }*  nr { g m }*
+           par: the first parameter (TDist: V);  own: bit 0 the distribution has its own InvCDF method, bit 1 its own Rand method;
            bl bh = Bounds(), cbl = CDF(bl), cbh = CDF(bh), cpl = CDF(-2^1023), cph = CDF(2^1023) (the last
            finite probes of the bracket expansion), x = InvCDF(y), xm = x - tol, c0 = CDF(x), cm = CDF(xm);
            ref = the distribution's own method at y (own bit 0) / stats.InvCDF of a bare wrapper that
@@ -24,8 +24,10 @@
            first non-zero value of an equally seeded source)
            kinds: 0 TDist 1 UDist 2 KDE 3 Binomial 4 Hypergeometric 5 Normal 6 Delta 7 harness geometric
            8 harness Poisson (7, 8: full DiscreteDist, infinite support, approximate Bounds)
+     op 8  Kolmogorov-Smirnov distance computed HERE: the n draws of stats.Rand with a seeded math/rand
+           source, sorted by the harness, against the exact pw_cdf:   7 8  nk { x l v }*  bl bh  st  n { draw }*
      op 7  Rand on a relational-kind distribution with a scripted source:
-           7 7 kind own  bl bh cbl cbh cpl cph  nsrc { int63 }*  st consumed y draw  { y ist x xm c0 cm rst ref }
+           7 7 kind par own  bl bh cbl cbh cpl cph  nsrc { int63 }*  st consumed y draw  { y ist x xm c0 cm rst ref }
    All of x l v bl bh y obs ... are float64 bit patterns; st: 0 = returned, 2 = panicked.
    knot (x, l, v): break point, left limit, value (see Model/InvCDF.v). *)
 From MM Require Import Base.Num Model.Choose Model.Binom Model.Hyperg Model.InvCDF Check.C06.
@@ -58,9 +60,9 @@ Definition eps_level : Q := 1 # 1000000000000000.
 (* halvings of the model bisection the observed value is enclosed by *)
 Definition model_halvings : nat := 12.
 
-(* y = NaN: the property demands nothing (the pinned code panics in bisectBool; returning NaN would be
-   as good): a panic or a NaN result are both accepted, anything else is not *)
-Definition nan_arg_ok (st : Z) (obs : xreal) : bool := (st =? 2) || ((st =? 0) && is_nan obs).
+(* y = NaN: the property demands nothing for a NaN argument (the pinned code panics in bisectBool, the
+   model says IPanic; NormalDist's method returns NaN, DeltaDist's returns T): whatever happens is accepted *)
+Definition nan_arg_ok (st : Z) (obs : xreal) : bool := true.
 
 Definition xdiag (x : xreal) : list Z :=
   match x with XNaN => [0] | XInf b => [1; if b then 1 else 0] | XFin q => 2 :: qdiag q end.
@@ -302,14 +304,19 @@ Fixpoint run_pairs (items : list (Z * Z)) (idx : Z) : option (Z * list Z) :=
    its derivative vanishes (an Epanechnikov kernel's edge, t near 0) *)
 Definition rel_is_step (kind : Z) : bool :=
   (kind =? 1) || (kind =? 3) || (kind =? 4) || (kind =? 6) || (kind =? 7) || (kind =? 8).
-(* slack on CDF(x - tol) < y *)
-Definition rel_slack_hi (kind : Z) : Q := if rel_is_step kind then 0 else eps_level.
+(* slack on CDF(x - tol) < y.  TDist.CDF (an incomplete beta function in float64) is not monotone at the
+   1e-8 level for V > 1e7 (measured: up to 1.2e-8 over 1e-9 |x|; none in 10^6 samples for V <= 1e7): there
+   the implementation's own cdf defines its quantile only to that accuracy *)
+Definition rel_slack_hi (kind : Z) (par : xreal) : Q :=
+  if rel_is_step kind then 0
+  else if kind =? 0 then match par with XFin v => if Qle_bool v 10000000 then eps_level else 1 # 10000000 | _ => eps_level end
+  else eps_level.
 (* CDF(x) >= y: the generic algorithm returns a point where the comparison CDF(x) < y was evaluated and
    false, so this is exact; a distribution's own method is held to CDF(x + tol) >= y - 1e-12 *)
 (* non-decreasing in y: exact for the generic algorithm, 1e-9 relative for an own method *)
 Definition rel_mono_tol (own : Z) : Q := if Z.land own 1 =? 0 then 0 else e9.
 
-Record relhdr := { rh_kind : Z; rh_own : Z; rh_bl : xreal; rh_bh : xreal; rh_cbl : xreal; rh_cbh : xreal;
+Record relhdr := { rh_kind : Z; rh_par : xreal; rh_own : Z; rh_bl : xreal; rh_bh : xreal; rh_cbl : xreal; rh_cbh : xreal;
                    rh_cpl : xreal; rh_cph : xreal }.
 Record relitem := { ri_y : xreal; ri_st : Z; ri_xb : Z; ri_xm : xreal; ri_c0 : xreal; ri_cm : xreal;
                     ri_xp : xreal; ri_cp : xreal; ri_rst : Z; ri_refb : Z }.
@@ -348,7 +355,7 @@ Definition check_rel_y (h : relhdr) (it : relitem) : Z * option (list Z) :=
                                                        && Qle_bool (yq - eps_level) cpq
                                | _, _ => false
                                end) then (tag, Some (10 :: qdiag c0q))
-            else if negb (Qltb cmq (yq + rel_slack_hi (rh_kind h))) then (tag, Some (11 :: qdiag cmq))  (* CDF(x - tol) >= y: not the smallest *)
+            else if negb (Qltb cmq (yq + rel_slack_hi (rh_kind h) (rh_par h))) then (tag, Some (11 :: qdiag cmq))  (* CDF(x - tol) >= y: not the smallest *)
             else (Z.lor tag (if Qle_bool 0 xq then T_RIGHT else T_LEFT), None)
         | XInf true, _, _, _ =>
             (* -Inf: legitimate exactly when CDF is still >= y at the last finite probe -2^1023 *)
@@ -364,8 +371,8 @@ Definition p_rel : parser relitem :=
   do y <- pX; do st <- pZ; do x <- pZ; do xm <- pX; do c0 <- pX; do cm <- pX; do xp <- pX; do cp <- pX; do rst <- pZ; do ref <- pZ;
   pret {| ri_y := y; ri_st := st; ri_xb := x; ri_xm := xm; ri_c0 := c0; ri_cm := cm; ri_xp := xp; ri_cp := cp; ri_rst := rst; ri_refb := ref |}.
 Definition p_relhdr : parser relhdr :=
-  do kind <- pZ; do own <- pZ; do bl <- pX; do bh <- pX; do cbl <- pX; do cbh <- pX; do cpl <- pX; do cph <- pX;
-  pret {| rh_kind := kind; rh_own := own; rh_bl := bl; rh_bh := bh; rh_cbl := cbl; rh_cbh := cbh; rh_cpl := cpl; rh_cph := cph |}.
+  do kind <- pZ; do par <- pX; do own <- pZ; do bl <- pX; do bh <- pX; do cbl <- pX; do cbh <- pX; do cpl <- pX; do cph <- pX;
+  pret {| rh_kind := kind; rh_par := par; rh_own := own; rh_bl := bl; rh_bh := bh; rh_cbl := cbl; rh_cbh := cbh; rh_cpl := cpl; rh_cph := cph |}.
 Fixpoint run_rel_items (h : relhdr) (items : list relitem) (idx tag : Z) : Z * option (Z * list Z) :=
   match items with
   | [] => (tag, None)
@@ -378,6 +385,25 @@ Fixpoint run_rel_items (h : relhdr) (items : list relitem) (idx tag : Z) : Z * o
   end.
 Definition rel_plain (items : list relitem) : list (xreal * Z * xreal) :=
   map (fun it => (ri_y it, ri_st it, decode_bits (ri_xb it))) items.
+
+(* ---------- Kolmogorov-Smirnov distance of a sorted sample against pw_cdf ----------
+   D = max_i max ((i+1)/n - cdf (v_i + tol), cdf (v_i - tol) - i/n) over the sorted draws v_0 <= ... <= v_(n-1):
+   a draw may sit up to the property's tolerance tol = 1e-9 |v| (+ the smallest positive float64) away from
+   the exact quantile (a draw that is exactly 0: looked at from just below 0) — at an atom that alone would
+   make the plain distance 1 — so the empirical cdf is
+   compared with the cdf shifted by tol to either side; this statistic is <= the distance of exact draws.
+   None: the sample is not sorted. *)
+Definition ks_tiny : Q := 1 # (2 ^ 1074).
+Fixpoint ks_scan (pw : pwf) (n : Q) (i : Z) (prev : option Q) (xs : list Q) (best : Q) : option Q :=
+  match xs with
+  | [] => Some best
+  | v :: r =>
+      if match prev with Some p => Qltb v p | None => false end then None else
+      let tol := (e9 * Qabs v)%Q in
+      let up := (inject_Z (i + 1) / n - pw_cdf pw (v + tol))%Q in
+      let dn := (pw_cdf pw (if Qeq_bool v 0 then - ks_tiny else v - tol) - inject_Z i / n)%Q in
+      ks_scan pw n (i + 1) (Some v) r (Qmaxb best (Qmaxb up dn))
+  end.
 
 Definition valid_pw (pw : pwf) : bool := pw_wfb pw.
 
@@ -487,6 +513,20 @@ Definition check_C07 (line : list Z) : list Z :=
                 end
           end
       | None => verdict V_MALFORMED 0 (-1) []
+      end
+  | 7 :: 8 :: rest =>
+      match (do pw <- plist p_knot; do bl <- pQ; do bh <- pQ; do st <- pZ; do xs <- plist pQ; pend (pw, st, xs)) rest with
+      | Some ((pw, st, xs), _) =>
+          let n := Z.of_nat (length xs) in
+          if negb (valid_pw pw) || (n <? 1) then verdict V_MALFORMED 0 (-1) [] else
+          if negb (st =? 0) then verdict V_MISMATCH (Z.lor T_RAND T_KS) 0 [st] else
+          match ks_scan pw (inject_Z n) 0 None xs 0 with
+          | None => verdict V_MALFORMED 0 (-1) [97]
+          | Some d => if Qle_bool (d * d * inject_Z (2 * n)) ks_bound
+                      then verdict V_OK (Z.lor T_RAND T_KS) (-1) []
+                      else verdict V_MISMATCH (Z.lor T_RAND T_KS) 1 (qdiag d)
+          end
+      | None => verdict V_MISMATCH (Z.lor T_RAND T_KS) 2 []     (* a draw that is not a finite number *)
       end
   | 7 :: 5 :: rest =>
       match (do pw <- plist p_knot; do bl <- pQ; do bh <- pQ; do n <- pZ; do st <- pZ; do d <- pX; pend (pw, n, st, d)) rest with
